@@ -509,7 +509,7 @@ def reader_entry_rule(repo: Repo, rep, P: str):
                                       f"{rel}:{n.lineno}")
                     else:
                         rep.ok(f"{P}.R4", f"{rel}:{qn}", norm(n), "section reader inside rv.readers", nontrivial=False)
-    rep.count("reader_construction_sites", n_sites, 4)
+    rep.count("reader_construction_sites", n_sites, 1)          # at least the top-level reader inside read_sunvox_file
     # nested loads re-enter read_sunvox_file
     nested = [("MetaModule", "rv.modules.metamodule", "load_project"),
               ("Sampler", "rv.modules.sampler", "load_chunk"),
@@ -526,8 +526,20 @@ def reader_entry_rule(repo: Repo, rep, P: str):
         rep.func(f"{mod}.{cname}.{meth}")
         if "read_sunvox_file" in calls:
             imp = ci.file.imports.get("read_sunvox_file")
+            if imp is None:
+                # the call may sit in an inherited private helper that was read through: the name is resolved in that class's module
+                try:
+                    for k_ in repo.mro(ci)[1:]:
+                        if k_.file.imports.get("read_sunvox_file"):
+                            imp = k_.file.imports.get("read_sunvox_file")
+                            break
+                except Exception:
+                    pass
             if imp and imp[0] == "rv.readers.reader":
                 rep.ok(f"{P}.R4", f"{ci.file.rel}:{cname}.{meth}", "read_sunvox_file(...)", "nested load re-enters the guarded entry")
+            elif imp is None:
+                rep.inconclusive(f"{P}.R4", f"{ci.file.rel}:{cname}.{meth}", "read_sunvox_file(...)", "where the name read_sunvox_file is imported from was not found",
+                                 f"{ci.file.rel}:{fn.lineno}")
             else:
                 rep.violation(f"{P}.R4", f"{ci.file.rel}:{cname}.{meth}", f"read_sunvox_file imported from {imp}",
                               "nested load calls a different read_sunvox_file", f"{ci.file.rel}:{fn.lineno}")
